@@ -186,6 +186,9 @@ def register(m):
     m("C15", "b2-convert-vector-old-point-coordinates", CVT, "        old_vector: new_vectors.subs(new_point.coordinates, simultaneous=True)\n", "        old_vector: new_vectors.subs(old_point.coordinates, simultaneous=True)\n", "X4")
     # C16 Q4 / Q5
     m("C16", "b2-solve-check-disabled", SOLV, '    flags["dict"] = True\n', '    flags["dict"] = True\n    flags.setdefault("check", False)\n', "Q4")
+    m("C16", "b4-solve-check-disabled-for-vector-equations", SOLV, '    flags["dict"] = True\n',
+      '    flags["dict"] = True\n    if sympify(f).has(VectorSymbol):\n        flags.setdefault("check", False)\n', "Q4",
+      note="seed C16_3 as rebased: the flag is switched off on a path the evaluator cannot follow; the spelling rule decides before the evaluation refuses")
     m("C16", "b2-first-vector-decides", VE, "            if is_vector_expr(arg):\n                n_vectors += 1\n                continue\n", "            if is_vector_expr(arg):\n                return True\n", ("Q5", ))
     m("C16", "b2-no-refusal-of-products", VE, '            case _:\n                raise ValueError("A vector can only be multiplied by a scalar.")', "            case _:\n                return True", "Q5")
     # C18 L3..L6
